@@ -153,6 +153,10 @@ func (e *StorageEngine) get(addr oid.Address, shardFunc func(s *shard.Shard, ign
 			// Already visited.
 			continue
 		}
+		if _, err := sh.Exists(addr, true); errors.Is(err, apistatus.ErrObjectNotFound) {
+			// Marked as removed in this shard's metabase: bypassing the metabase must not revive it.
+			continue
+		}
 
 		err := shardFunc(sh.Shard, true)
 		if errors.Is(err, apistatus.ErrObjectOutOfRange) {
